@@ -4,7 +4,7 @@
    $ENV references (with references the harness checks distinctness per case). *)
 From Coq Require Import List NArith Bool Lia DecimalN.
 Import ListNotations.
-From L4 Require Import Model.Subst.
+From L4 Require Import Model.Subst Proofs.Window.
 Local Open Scope N_scope.
 
 (* ---- decimal rendering is injective ---- *)
@@ -31,6 +31,13 @@ Fixpoint occ (pat : list N) : nat :=
     end
   end.
 
+Lemma occ_cons2 a c rest :
+  occ (a :: c :: rest) = if (a =? 123) && (c =? 125) then S (occ rest) else occ (c :: rest).
+Proof. reflexivity. Qed.
+Lemma subst_cons2 a c rest d :
+  subst (a :: c :: rest) d = if (a =? 123) && (c =? 125) then d ++ subst rest d else a :: subst (c :: rest) d.
+Proof. reflexivity. Qed.
+
 (* length pat + k * |d| = |subst pat d| + 2 k *)
 Lemma subst_length_gen : forall n pat d, (length pat <= n)%nat ->
   (length (subst pat d) + 2 * occ pat = length pat + occ pat * length d)%nat.
@@ -38,12 +45,12 @@ Proof.
   induction n as [|n IH]; intros pat d Hn.
   - destruct pat; [reflexivity|cbn in Hn; lia].
   - destruct pat as [|a [|c rest]]; [reflexivity|reflexivity|].
-    cbn [subst occ].
+    rewrite occ_cons2, subst_cons2.
     destruct ((a =? 123) && (c =? 125)) eqn:E.
     + rewrite app_length. cbn [length] in *.
       specialize (IH rest d ltac:(lia)). lia.
-    + cbn [length] in *. specialize (IH (c :: rest) d ltac:(cbn [length]; lia)).
-      cbn [length] in IH. lia.
+    + specialize (IH (c :: rest) d ltac:(cbn [length] in *; lia)).
+      cbn [length] in *. lia.
 Qed.
 
 Lemma subst_length pat d :
@@ -64,7 +71,7 @@ Proof.
   induction n as [|n IH]; intros pat d e Hn Ho Hl H.
   - destruct pat; [cbn in Ho; congruence|cbn in Hn; lia].
   - destruct pat as [|a [|c rest]]; [cbn in Ho; congruence|cbn in Ho; congruence|].
-    cbn [subst occ] in *.
+    rewrite occ_cons2 in Ho. rewrite !subst_cons2 in H.
     destruct ((a =? 123) && (c =? 125)) eqn:E.
     + eapply app_same_length_inj; eassumption.
     + injection H as H. apply (IH (c :: rest)); [cbn [length] in *; lia|exact Ho|exact Hl|exact H].
@@ -117,4 +124,11 @@ Theorem archive_names_distinct : forall pat i j,
 Proof.
   intros pat i j Hc H. rewrite !archive_name_noenv in H.
   eapply subst_injective; [apply contains_occ; exact Hc|exact H].
+Qed.
+
+Theorem pattern_names_injective : forall (pat : list N) (b c : N),
+  contains_braces pat = true -> names_injective (archive_name [] pat) b c.
+Proof.
+  intros pat b c Hc i j _ _ H.
+  apply archive_names_distinct in H; [|exact Hc]. lia.
 Qed.
